@@ -189,7 +189,12 @@ func ruleTPL1(c *Ctx) {
 				if !ok || fd.Body == nil {
 					continue
 				}
-				writes := findCalls(info, fd.Body, false, func(fn *types.Func, _ *ast.CallExpr) bool { return fullName(fn) == "os.WriteFile" })
+				var writes []writeSite
+				for _, ws := range writeSites(p, ta.Set.Pkg) {
+					if ws.fd == fd {
+						writes = append(writes, ws)
+					}
+				}
 				if len(writes) != 1 {
 					continue
 				}
@@ -201,7 +206,7 @@ func ruleTPL1(c *Ctx) {
 					}
 				}
 				if uses {
-					if k := constReaching(info, fd, writes[0].Args[0]); k != nil {
+					if k := constReaching(info, fd, writes[0].name); k != nil {
 						fileOfTmpl[u.Name] = constStr(k)
 					}
 				}
@@ -586,10 +591,35 @@ func ruleTPL4(c *Ctx) {
 	}
 	info := pk.TypesInfo
 	key := ""
-	ast.Inspect(fd.Body, func(n ast.Node) bool {
+	// the field a comparator operand stands for: x.F, or x.M() with M returning its receiver's F
+	keyField := func(e ast.Expr) *types.Var {
+		if fv, _ := selField(info, e); fv != nil {
+			return fv
+		}
+		call, ok := ast.Unparen(e).(*ast.CallExpr)
+		if !ok || len(call.Args) != 0 {
+			return nil
+		}
+		sel, ok := ast.Unparen(call.Fun).(*ast.SelectorExpr)
+		if !ok {
+			return nil
+		}
+		// the method may be called through an interface or a type parameter: use the
+		// implementation on lr1.Terminal
+		name := sel.Sel.Name
+		_, md := p.FuncDecl("internal/parsergen/lr1", "Terminal."+name)
+		if md == nil || md.Body == nil || len(md.Body.List) != 1 {
+			return nil
+		}
+		if rs, ok := md.Body.List[0].(*ast.ReturnStmt); ok && len(rs.Results) == 1 {
+			fv, _ := selField(info, rs.Results[0])
+			return fv
+		}
+		return nil
+	}
+	inspectScope(p, pk, fd, 2, func(_ ast.Node, n ast.Node) bool {
 		if call, ok := n.(*ast.CallExpr); ok && fullName(calleeFunc(info, call)) == "cmp.Compare" && len(call.Args) == 2 {
-			fa, _ := selField(info, call.Args[0])
-			fb, _ := selField(info, call.Args[1])
+			fa, fb := keyField(call.Args[0]), keyField(call.Args[1])
 			if fa != nil && fa == fb {
 				key = fa.Name()
 			}
